@@ -109,9 +109,9 @@ theorem phase_twin (s c : Sys) (hg : Good iss s) (ta tb : Tcb) (hs : Steady s ta
       omega
     exact off_add _ _ _ (by unfold sent at this; omega)
   have ea2' : (fw ta1).arriveList outB = .ok (fw ta2) := by
-    refine ackList_twin (iss .A) ta1.sent (hg2.sent_lt .A ta1 h2a) outB ta1 ta2 (by rw [fA.st]; exact hs.a.st)
+    refine (ackList_twin (iss .A) ta1.sent (hg2.sent_lt .A ta1 h2a) outB ta1 ta2 (by rw [fA.st]; exact hs.a.st)
       (by rw [fA.rcv]; exact hg.wnd .A ta hsa) (by rw [fA.inc]; exact hs.a.heap) hne1 issA1
-      (by unfold sent; rw [issA1]) (by have := sq2.1; have := sq2.2; omega) ?_ ea2
+      (by unfold sent; rw [issA1]) (by have := sq2.1; have := sq2.2; omega) ?_ ea2).1
     intro g hg'
     rw [houtB] at hg'
     obtain ⟨h, hh, rfl⟩ := List.mem_map.1 hg'
